@@ -4,14 +4,14 @@ CONSTANTS
   Val = {v1, v2}
   Stranger = {}
   Sig = {s1}
-  GraceSet = {2}
+  GraceSet = {3}
   CoolSet = {1}
   DiscSet = {1}
   UpdSet = {2}
   QuorumSet = {50}
   PenaltySet = {1}
-  DtSet = {0, 1, 3}
-  IntervalSet = {2, 4}
+  DtSet = {0, 1, 4}
+  IntervalSet = {2, 3}
   PowerSet = {1}
   PriceSet = {1}
   StatusSet = {"avail"}
